@@ -81,6 +81,8 @@ Judge(r) ==
         LET dd == DecodeDev(r.b, r.m, D) IN
         /\ dd.st = "Done" /\ dd.pos = r.al
         /\ (prop = "Disp" => (dd.br /\ r.ab = 1 /\ SignExt(r.ad, r.as) = DispLimbs(r.b, dd)))
+        \* ... and the deviation is what makes the difference on this string
+        /\ (~done \/ dd.pos # d.pos \/ (dd.br /\ DispLimbs(r.b, dd) # sd))
       cands == IF prop = "ok" THEN <<>> ELSE SelectSeq(AmocoDevs, Explains)
       attr == IF Len(cands) > 0 THEN cands[1] ELSE "none"
   IN [t |-> r.t, bind |-> binding, prop |-> prop, dom |-> dom, st |-> d.st, attr |-> attr,
